@@ -220,6 +220,11 @@ def root_variants(cls, v):
             (["coll", "vartuple", ["cls", cls]], ["t", [v, v]])]
 
 
+def typing_list(t):
+    import typing
+    return typing.List[t]
+
+
 def alias_child(job):
     """Recursive type aliases (no model term): oracle only, on the real library."""
     import sys
@@ -241,6 +246,36 @@ def alias_child(job):
     import datetime
     out = []
     for name, depth in job:
+        if name == "TypingMod":
+            # recursive classes declared in a project module that is CALLED typing (acme.typing): classes like any other
+            pkg, sub = sys.modules.get("vm_c07_acme"), sys.modules.get("vm_c07_acme.typing")
+            if sub is None:
+                pkg, sub = types.ModuleType("vm_c07_acme"), types.ModuleType("vm_c07_acme.typing")
+                pkg.__path__ = []
+                pkg.typing = sub
+                sys.modules["vm_c07_acme"], sys.modules["vm_c07_acme.typing"] = pkg, sub
+                exec("from __future__ import annotations\nimport dataclasses, typing, datetime\n@dataclasses.dataclass\nclass Node:\n"
+                     "    day: datetime.date\n    nxt: typing.Optional[Node] = None\n    kids: typing.List[Node] = dataclasses.field(default_factory=list)\n"
+                     "@dataclasses.dataclass\nclass A:\n    bs: typing.List[B]\n@dataclasses.dataclass\nclass B:\n    a: typing.Optional[A] = None\n"
+                     "    day: datetime.date = datetime.date(2020, 1, 2)\n", sub.__dict__)
+            day, iso = datetime.date(2020, 1, 2), "2020-01-02"
+            val, wire = sub.Node(day), {"day": iso, "nxt": None, "kids": []}
+            for i in range(depth):
+                val, wire = sub.Node(day, val, [sub.Node(day)]), {"day": iso, "nxt": wire, "kids": [{"day": iso, "nxt": None, "kids": []}]}
+            aval, awire = sub.A([sub.B()]), {"bs": [{"a": None, "day": iso}]}
+            for i in range(min(depth, 20)):
+                aval, awire = sub.A([sub.B(aval)]), {"bs": [{"a": awire, "day": iso}]}
+            try:
+                ok, got = True, ""
+                for t_, v_, w_ in ((sub.Node, val, wire), (sub.A, aval, awire), (typing_list(sub.Node), [val], [wire])):
+                    m_ = typelib.marshal(v_, t=t_)
+                    back = typelib.unmarshal(t_, w_)
+                    if m_ != w_ or back != v_:
+                        ok, got = False, repr(m_)[:120] + " / " + repr(back)[:80]
+                out.append({"alias": name, "depth": depth, "ok": ok, "got": got})
+            except Exception as e:  # noqa: BLE001
+                out.append({"alias": name, "depth": depth, "ok": False, "got": f"{type(e).__name__}: {e}"[:160]})
+            continue
         t = getattr(mod, name)
         if name in ("TD", "DD", "ND", "Rows", "Item", "Tree"):
             # leaves that need conversion: every level of the marshalled form must be plain, and equal to the expected wire
@@ -382,7 +417,7 @@ def explore(ctx):
                 res.count("oracle:roundtrip-every-level")
     # recursive aliases
     core.import_typelib()
-    ajobs = [[(name, d) for d in depths] for name in ("A", "L", "O", "TD", "DD", "ND", "Rows", "Item", "Tree")]
+    ajobs = [[(name, d) for d in depths] for name in ("A", "L", "O", "TD", "DD", "ND", "Rows", "Item", "Tree", "TypingMod")]
     for out in iso.map_isolated(alias_child, ajobs, timeout=120):
         if isinstance(out, dict) and "crash" in out:
             res.failures.append({"what": f"recursive alias: {out['crash']}", "input": {"alias": "?"}})
